@@ -34,6 +34,7 @@ type zvBSpec struct {
 	want  map[string]string
 	setup func(s *state.Store)
 	round func(r *fsmkit.Replica) zvRound
+	ref   func(r *fsmkit.Replica) zvRound // reference application (deletions first) of the same diff
 }
 
 func zvConverge(sp *zvBSpec) int {
@@ -59,7 +60,7 @@ func zvRunB(run *core.Run, sink *zvSink, sp *zvBSpec) {
 		conv = "does NOT converge within 4 identical rounds"
 	}
 	desc := fmt.Sprintf("%s local=%v remote=%v lastRemoteIndex=%d shuffled=%v (%s)", sp.info.Scenario, sp.info.Local, sp.info.Remote, sp.info.Last, sp.info.Shuffle, conv)
-	rd, _ := zvJudge(sink, zvBOrder, nil, sp.ty, sp.info.Site, sp.info, desc, sp.want, nil, sp.setup, sp.round)
+	rd, _ := zvJudge(sink, zvBOrder, nil, sp.ty, sp.info.Site, sp.info, desc, sp.want, nil, sp.setup, sp.round, sp.ref)
 	run.Eval()
 	site := strings.SplitN(sp.info.Site, ":", 2)[0]
 	run.Count("partB:" + site + ":cases")
@@ -118,7 +119,8 @@ func zvPartBTokens(run *core.Run, sink *zvSink) {
 			setup: func(s *state.Store) {
 				zvMust(s.ACLTokenBatchSet(3, structs.ACLTokens{zvTokGen(1, 0, cl, 3)}, state.ACLTokenSetOptions{AllowMissingPolicyAndRoleIDs: true, FromReplication: true}))
 			},
-			round: func(r *fsmkit.Replica) zvRound { return zvTokenRound(r, mk(), last, sh, uint64(n), 0, 0) }})
+			round: func(r *fsmkit.Replica) zvRound { return zvTokenRound(r, mk(), last, sh, uint64(n), 0, 0, false) },
+			ref:   func(r *fsmkit.Replica) zvRound { return zvTokenRef(r, mk(), last, sh, uint64(n), 0, 0) }})
 	}
 }
 
@@ -218,15 +220,16 @@ func zvPartBRenames(run *core.Run, sink *zvSink) {
 						}
 						zvMust(s.ACLPolicyBatchSet(3, b))
 					}
-					sp.round = func(r *fsmkit.Replica) zvRound {
-						var rem []*structs.ACLPolicy
+					mk := func() (rem []*structs.ACLPolicy) {
 						for k := 0; k < 3; k++ {
 							if remote[k] >= 0 {
 								rem = append(rem, zvNamedPol(k, remote[k], 5))
 							}
 						}
-						return zvPolicyRound(r, rem, 0, sh, uint64(n))
+						return
 					}
+					sp.round = func(r *fsmkit.Replica) zvRound { return zvPolicyRound(r, mk(), 0, sh, uint64(n), false) }
+					sp.ref = func(r *fsmkit.Replica) zvRound { return zvPolicyRef(r, mk(), 0, sh, uint64(n)) }
 				} else {
 					sp.ty = zvRoleType
 					for k := 0; k < 3; k++ {
@@ -243,15 +246,16 @@ func zvPartBRenames(run *core.Run, sink *zvSink) {
 						}
 						zvMust(s.ACLRoleBatchSet(3, b, true))
 					}
-					sp.round = func(r *fsmkit.Replica) zvRound {
-						var rem structs.ACLRoles
+					mk := func() (rem structs.ACLRoles) {
 						for k := 0; k < 3; k++ {
 							if remote[k] >= 0 {
 								rem = append(rem, zvNamedRole(k, remote[k], 5))
 							}
 						}
-						return zvRoleRound(r, rem, 0, sh, uint64(n))
+						return
 					}
+					sp.round = func(r *fsmkit.Replica) zvRound { return zvRoleRound(r, mk(), 0, sh, uint64(n), false) }
+					sp.ref = func(r *fsmkit.Replica) zvRound { return zvRoleRef(r, mk(), 0, sh, uint64(n)) }
 				}
 				zvRunB(run, sink, sp)
 			}
